@@ -252,10 +252,10 @@ def _open_socket_paths(ctx, naddr):
     def conn(label):
         def f(I, run, args, kwargs, node):
             run.effect(f"{label}.connect", args, kwargs, node=node)
-            ch = run.choose(4, I.locof(node), f"{label}.connect: ok / refused / unreachable / other error")
+            ch = run.choose(5, I.locof(node), f"{label}.connect: ok / refused / network unreachable / other error / host unreachable (no route)")
             if ch == 0:
                 return NONE
-            en = {1: "errno.ECONNREFUSED", 2: "errno.ENETUNREACH", 3: "errno.EACCES"}[ch]
+            en = {1: "errno.ECONNREFUSED", 2: "errno.ENETUNREACH", 3: "errno.EACCES", 4: "errno.EHOSTUNREACH"}[ch]
             raise RaiseSig(run.alloc(HObj("socket.error", {"args": Tup((Ext(en), C("x"))), "errno": Ext(en)}, f"err-{label}")), node)
         return f
 
@@ -310,7 +310,7 @@ def r3(ctx):
                     ok = ok and lab == f"err-s{want[1]}" and closed == [f"s{i}" for i in range(want_attempts)]
             if not ok:
                 bad = bad or (pattern, attempts, closed, want, o)
-        names = {0: "ok", 1: "refused", 2: "unreachable", 3: "other-error"}
+        names = {0: "ok", 1: "refused", 2: "net-unreachable", 3: "other-error", 4: "host-unreachable"}
         ctx.ob(f"{q}:addresses={naddr}", bad is None, f"{len(outs)} outcome patterns, all as the reference loop" if bad is None else
                f"address outcomes {[names[c] for c in bad[0]]}: attempts {bad[1]}, closed {bad[2]}, ended {bad[4].kind}; expected {bad[3][0]} at address #{bad[3][1]} "
                f"with every failed socket closed", loc, {"path": path_text(bad[4], 10)} if bad else None)
